@@ -743,6 +743,7 @@ package exec
 //@   uses strbuilder
 //@   requires b != nil
 //@   modifies b
+//@   noalloc
 //@   ensures sbstr(deref(b)) == old(sbstr(deref(b))) + s && err == nil
 
 //@ extern strings.Builder.String(b) (r)
@@ -1843,3 +1844,139 @@ package exec
 //@   loop 0
 //@     invariant 0 - 1 <= #k && #k < len(settings) || (len(settings) == 0 && #k == 0 - 1)
 //@     decreases len(settings) - #k
+
+// ---------- string functions (exec/function.go): XPath 1.0 section 4.2 ----------
+// concat, starts-with, contains, substring-before/after and string-length are proved against the specification
+// functions (assumed contracts of package strings / unicode/utf8 on valid UTF-8).  For substring, normalize-space and
+// translate the contracts prove absence of errors and panics for every argument; their character-level results are
+// covered by the bounded stand-in /verif/bounded/strings (the rune decoding of `range` over a string is not modelled).
+
+//@ extern strings.HasPrefix(s, prefix) (r)
+//@   pure
+//@   uses strfn
+//@   ensures r == shasPrefix(s, prefix)
+
+//@ extern strings.Contains(s, substr) (r)
+//@   pure
+//@   uses strfn
+//@   ensures r == (sindex(s, substr) >= 0)
+
+//@ extern strings.Index(s, substr) (r)
+//@   pure
+//@   uses strfn
+//@   ensures r == sindex(s, substr)
+
+//@ extern utf8.RuneCountInString(s) (r)
+//@   pure
+//@   uses strfn
+//@   ensures r == runeCount(s)
+
+//@ extern strings.Builder.WriteRune(b, r) (n, err)
+//@   requires b != nil
+//@   modifies b
+//@   noalloc
+//@   ensures err == nil
+
+//@ extern strings.Builder.WriteByte(b, c) (err)
+//@   requires b != nil
+//@   modifies b
+//@   noalloc
+//@   ensures err == nil
+
+//@ extern strings.Builder.Len(b) (r)
+//@   pure
+//@   requires b != nil
+//@   ensures r >= 0
+
+//@ func concat(context, args) (r, err)
+//@   property C07 C13 C15
+//@   uses strfn strbuilder
+//@   requires okargs(args)
+//@   ensures err == nil && r == VStr(catAll(args, len(args)))                @concatenation-of-all-arguments
+//@   loop 0
+//@     invariant 0 - 1 <= #k && #k < len(args) || (len(args) == 0 && #k == 0 - 1)
+//@     invariant sbstr(deref(addrof_ret)) == catAll(args, #k + 1)
+//@     decreases len(args) - #k
+
+//@ func startsWith(context, args) (r, err)
+//@   property C07 C13 C15
+//@   uses strfn
+//@   requires okargs(args)
+//@   ensures (err != nil) == (len(args) != 2)
+//@   ensures err == nil ==> r == VBool(shasPrefix(toStr(args[0]), toStr(args[1])))
+
+//@ func contains(context, args) (r, err)
+//@   property C07 C13 C15
+//@   uses strfn
+//@   requires okargs(args)
+//@   ensures (err != nil) == (len(args) != 2)
+//@   ensures err == nil ==> r == VBool(sindex(toStr(args[0]), toStr(args[1])) >= 0)
+
+//@ func substringBefore(context, args) (r, err)
+//@   property C07 C13 C15
+//@   uses strfn
+//@   requires okargs(args)
+//@   ensures (err != nil) == (len(args) != 2)
+//@   ensures err == nil && sindex(toStr(args[0]), toStr(args[1])) < 0 ==> r == VStr("")
+//@   ensures err == nil && sindex(toStr(args[0]), toStr(args[1])) >= 0 ==> r == VStr(ssub(toStr(args[0]), 0, sindex(toStr(args[0]), toStr(args[1]))))     @text-before-the-first-occurrence
+
+//@ func substringAfter(context, args) (r, err)
+//@   property C07 C13 C15
+//@   uses strfn
+//@   requires okargs(args)
+//@   ensures (err != nil) == (len(args) != 2)
+//@   ensures err == nil && sindex(toStr(args[0]), toStr(args[1])) < 0 ==> r == VStr("")
+//@   ensures err == nil && sindex(toStr(args[0]), toStr(args[1])) >= 0 ==> r == VStr(ssub(toStr(args[0]), sindex(toStr(args[0]), toStr(args[1])) + len(toStr(args[1])), len(toStr(args[0]))))   @text-after-the-first-occurrence
+
+//@ func stringLength0(context, args) (r, err)
+//@   property C07 C13 C15
+//@   uses strfn
+//@   requires context != nil && context.result != nil
+//@   ensures err == nil && r == VNum(i2f(runeCount(toStr(context.result))))     @characters-not-bytes
+
+//@ func stringLength1(context, args) (r, err)
+//@   property C07 C13 C15
+//@   uses strfn
+//@   requires len(args) == 1 && args[0] != nil
+//@   ensures err == nil && r == VNum(i2f(runeCount(toStr(args[0]))))            @characters-not-bytes
+
+//@ func substring(context, args) (r, err)
+//@   property C07 C13 C15
+//@   uses values num
+//@   requires okargs(args)
+//@   ensures (err != nil) == (len(args) != 2 && len(args) != 3)                 @never-fails-on-argument-values
+//@   ensures err == nil ==> isVStr(r)
+//@   loop 0
+//@     invariant position >= 0
+
+//@ func normalizeXmlSpace(s) (r)
+//@   property C07 C13 C15
+//@   uses strnum
+//@   loop 0
+//@     invariant 0 <= i && i <= len(s)
+//@     decreases len(s) - i
+
+//@ func normalizeSpace0(context, args) (r, err)
+//@   property C07 C13 C15
+//@   uses values
+//@   requires context != nil && context.result != nil
+//@   ensures err == nil && isVStr(r)
+
+//@ func normalizeSpace1(context, args) (r, err)
+//@   property C07 C13 C15
+//@   uses values
+//@   requires len(args) == 1 && args[0] != nil
+//@   ensures err == nil && isVStr(r)
+
+//@ func translate(context, args) (r, err)
+//@   property C07 C13 C15
+//@   uses values
+//@   requires okargs(args)
+//@   ensures (err != nil) == (len(args) != 3)                                   @never-fails-on-argument-values
+//@   ensures err == nil ==> isVStr(r)
+//@   loop 0
+//@     invariant true
+//@   loop 1
+//@     invariant 0 - 1 <= #k && #k < len(from) || (len(from) == 0 && #k == 0 - 1)
+//@     invariant 0 - 1 <= index && index <= #k
+//@     decreases len(from) - #k
